@@ -411,6 +411,46 @@ pub fn fit_core<P, T, E>(
     P: ParamGuard,
     E: Display + From<P::Error>,
 {
+    fit_core_x(obs, g, v, hb, entry, on_p, on_c, touched, same)
+}
+
+/// The same obligations with an EMPTY (zero-sample) dataset / batch as input: a rejected builder must still answer
+/// with the parameter error (checking comes before looking at the data), an accepted builder must behave like
+/// `check()?.entry(empty)` - whatever that does with an empty input (error, panic, degenerate model).
+#[allow(clippy::too_many_arguments)]
+pub fn fit_core_empty<P, T, E>(
+    obs: &mut Obs,
+    g: &Glue<P>,
+    v: &Verdict,
+    hb: &P,
+    entry: &'static str,
+    on_p: &dyn Fn(&P) -> Result<T, E>,
+    on_c: &dyn Fn(&P::Checked) -> Result<T, E>,
+    touched: &dyn Fn() -> usize,
+    same: &dyn Fn(&T, &T) -> bool,
+) where
+    P: ParamGuard,
+    E: Display + From<P::Error>,
+{
+    obs.class("entry_with_empty_input");
+    fit_core_x(obs, g, v, hb, entry, on_p, on_c, touched, same)
+}
+
+#[allow(clippy::too_many_arguments)]
+fn fit_core_x<P, T, E>(
+    obs: &mut Obs,
+    g: &Glue<P>,
+    v: &Verdict,
+    hb: &P,
+    entry: &'static str,
+    on_p: &dyn Fn(&P) -> Result<T, E>,
+    on_c: &dyn Fn(&P::Checked) -> Result<T, E>,
+    touched: &dyn Fn() -> usize,
+    same: &dyn Fn(&T, &T) -> bool,
+) where
+    P: ParamGuard,
+    E: Display + From<P::Error>,
+{
     let cx = g.cx;
     if !v.ok {
         let before = touched();
